@@ -25,33 +25,50 @@ Every theorem quantifies over
 granted to callers that have not reached `buildMessage` yet.
 
 Full statement (S): in every reachable state `AllocatedForPeer(p) = held`, and a queue that has
-exited holds nothing.  (S) is FALSE of the code after the queue goroutine has exited
-(`dead_queue_counterexample`: a transaction that reaches `buildMessage` through a stale handle
-reserves memory nobody will release — known finding `dead-queue-leak`).  Proved: (S) for every
-reachable state in which the queue goroutine has not exited (`exactly_once`, all schedules), zero at
-idle (`idle_zero`), zero at the moment of exit (`exit_zero`).
+exited holds nothing.  (S) is FALSE of the code in two regions, each with a counterexample theorem:
+(a) after the queue goroutine has exited (`pc = .exited`; `dead_queue_counterexample`: a transaction
+that reaches `buildMessage` through a stale handle reserves memory nobody will release — known finding
+`dead-queue-leak`; note that a build while the goroutine is still in its deferred exit, `pc = .exiting`,
+is covered by the theorems); (b) while another queue of the same peer is alive
+(`successor_wiped_counterexample`, known finding `overlap-release-wipes-successor`, a consequence of
+the C17 finding `overlap-shutting-down`).  Proved: (S) for every state reachable by a schedule without
+a second queue of the same peer (`SoloReachable`; other peers unrestricted) in which the queue
+goroutine has not exited (`exactly_once_partial`, `exactly_once_sums`), zero at idle (`idle_zero`),
+zero at the moment of exit (`exit_zero`).  `reserved_first` and `log_is_allocator_history` hold for
+ALL schedules (`Reachable`).
 -/
 namespace GS.C15
 open GS.MQ GS.Alloc
 
-/-- states reachable by some schedule from `messagequeue.New` with a fresh allocator -/
+/-- states reachable by some schedule from `messagequeue.New` with a fresh allocator — including
+    schedules in which ANOTHER queue of the same peer uses the allocator (`Act.env op` with
+    `opPeer op = peer`), which happens while a stopping queue and its successor overlap (C17) -/
 def Reachable (pick : Pick) (peer mr mt mp : Nat) (s : MQ.State) : Prop :=
   ∃ acts : List Act, s = runActs pick (init peer mr mt mp) acts
+
+/-- … by a schedule in which this queue is the only queue of its peer that touches the allocator
+    (the recorded assumption "one live queue per peer"; other peers are unrestricted) -/
+def SoloReachable (pick : Pick) (peer mr mt mp : Nat) (s : MQ.State) : Prop :=
+  ∃ acts : List Act, soloFrom pick (init peer mr mt mp) acts = true ∧ s = runActs pick (init peer mr mt mp) acts
+
+theorem SoloReachable.reachable {pick : Pick} {peer mr mt mp : Nat} {s : MQ.State}
+    (h : SoloReachable pick peer mr mt mp s) : Reachable pick peer mr mt mp s := by
+  obtain ⟨acts, _, rfl⟩ := h; exact ⟨acts, rfl⟩
 
 section
 variable {pick : Pick} (hp : Admissible pick) {peer mr mt mp : Nat} (ht : mt < W) (hm : mp < W)
 include hp ht hm
 
-theorem Reachable.inv {s : MQ.State} (h : Reachable pick peer mr mt mp s) : I s := by
-  obtain ⟨acts, rfl⟩ := h
-  exact runActs_I hp (Or.inr (init_LInv ht hm)) acts
+theorem SoloReachable.inv {s : MQ.State} (h : SoloReachable pick peer mr mt mp s) : I s := by
+  obtain ⟨acts, hs, rfl⟩ := h
+  exact runActs_I hp (Or.inr (init_LInv ht hm)) acts hs
 
 /-- **Exactly once (the ledger), partial = until the queue goroutine has exited.**  On every
     schedule, in every state, the bytes the allocator accounts to the peer are exactly the bytes
     held by queued builders, by the message in flight and by granted-but-not-yet-built reservations:
     every reserved byte that has left these three places has been released, and none twice
     (`AllocatedForPeer = granted − released` is C13's `ledger`). -/
-theorem exactly_once_partial {s : MQ.State} (h : Reachable pick peer mr mt mp s) (hne : s.pc ≠ .exited) :
+theorem exactly_once_partial {s : MQ.State} (h : SoloReachable pick peer mr mt mp s) (hne : s.pc ≠ .exited) :
     allocatedFor s.alloc s.peer = heldBuilders s + heldInFlight s + heldGranted s := by
   rcases h.inv hp ht hm with h' | h'
   · exact absurd h' hne
@@ -60,7 +77,7 @@ theorem exactly_once_partial {s : MQ.State} (h : Reachable pick peer mr mt mp s)
 /-- **Idle ⇒ zero.**  When nothing is queued, nothing is in flight and no caller holds a granted
     reservation, the peer's accounted memory is 0 — whatever happened before (failures, scrubbing,
     retries, extension data, shared blocks). -/
-theorem idle_zero {s : MQ.State} (h : Reachable pick peer mr mt mp s) (hpc : s.pc = .idle)
+theorem idle_zero {s : MQ.State} (h : SoloReachable pick peer mr mt mp s) (hpc : s.pc = .idle)
     (hb0 : ∀ b ∈ s.builders, b.empty = true) (hw : ∀ w ∈ s.waiters, w.answer = none) :
     allocatedFor s.alloc s.peer = 0 := by
   rcases h.inv hp ht hm with h' | h'
@@ -89,7 +106,7 @@ theorem idle_zero {s : MQ.State} (h : Reachable pick peer mr mt mp s) (hpc : s.p
 
 /-- **Exit ⇒ zero.**  The step in which the queue goroutine exits (`ReleasePeerMemory` in the
     deferred function of `runQueue`) leaves nothing accounted to the peer. -/
-theorem exit_zero {s : MQ.State} (h : Reachable pick peer mr mt mp s) (hpc : s.pc = .exiting) (ok : Bool) :
+theorem exit_zero {s : MQ.State} (h : SoloReachable pick peer mr mt mp s) (hpc : s.pc = .exiting) (ok : Bool) :
     allocatedFor (s.ack pick ok).alloc s.peer = 0 ∧ (s.ack pick ok).pc = .exited := by
   have hinv : Alloc.Inv s.alloc := by
     rcases h.inv hp ht hm with h' | h'
@@ -127,10 +144,10 @@ include hp ht hm
     queued builders, the message in flight and granted-but-not-yet-built reservations.  Together
     with C13 `release_clamped` (a release never exceeds what is accounted) no byte is released twice
     and none is forgotten. -/
-theorem exactly_once_sums {s : MQ.State} (h : Reachable pick peer mr mt mp s) (hne : s.pc ≠ .exited) :
+theorem exactly_once_sums {s : MQ.State} (h : SoloReachable pick peer mr mt mp s) (hne : s.pc ≠ .exited) :
     grantedSum s.peer (memOf s.log) =
       releasedSum s.peer (memOf s.log) + (heldBuilders s + heldInFlight s + heldGranted s) := by
-  obtain ⟨ops, h1, h2⟩ := log_is_allocator_history h
+  obtain ⟨ops, h1, h2⟩ := log_is_allocator_history h.reachable
   have hl := GS.C13.ledger_sums hp ht hm ops s.peer
   rw [← h1, ← h2] at hl
   have := exactly_once_partial hp ht hm h hne
@@ -153,22 +170,39 @@ theorem reserved_first {pick : Pick} {peer mr mt mp : Nat} {s : MQ.State} (h : R
     1000-byte block is built through a stale handle: 1000 bytes are accounted to the peer of a queue
     that will never send or release them (every later `run`/`ack` is a no-op, `ack_exited`). -/
 theorem dead_queue_counterexample :
-    ∃ s, Reachable pickMin 0 1 (2^30) (2^30) s ∧ s.pc = .exited ∧ allocatedFor s.alloc s.peer = 1000 ∧
+    ∃ s, SoloReachable pickMin 0 1 (2^30) (2^30) s ∧ s.pc = .exited ∧ allocatedFor s.alloc s.peer = 1000 ∧
       (∀ ok, s.ack pickMin ok = s) ∧ (∀ pw, s.run pickMin pw = s) :=
   ⟨runActs pickMin (init 0 1 (2^30) (2^30))
       [.shutdown, .run true, .ack true,
        .build { who := .response, req := 0, sub := 0, items := [.block 1 1000 true] }],
-    ⟨_, rfl⟩, by decide, by decide, fun ok => ack_exited _ _ _ (by decide), fun pw => run_exited _ _ _ (by decide)⟩
+    ⟨_, by decide, rfl⟩, by decide, by decide, fun ok => ack_exited _ _ _ (by decide), fun pw => run_exited _ _ _ (by decide)⟩
+
+/-- **(S) is false while two queues of one peer overlap** (known finding
+    `overlap-release-wipes-successor`; the assumption dropped is `SoloReachable`): this queue (the
+    successor) has a 2000-byte message in flight; the old queue of the same peer, which held 1000
+    bytes, finishes its message and exits — its deferred `ReleasePeerMemory(peer)` removes the peer's
+    whole allocator entry: 0 bytes are accounted while 2000 reserved bytes are unsent, and the later
+    release of those bytes finds no entry.  Replayed on the real peermanager + messagequeue +
+    allocator (corpus/C15/known-overlap.cases drives the same allocator calls against a real queue). -/
+theorem successor_wiped_counterexample :
+    ∃ s, Reachable pickMin 0 1 (2^30) (2^30) s ∧ s.pc ≠ .exited ∧ heldInFlight s = 2000 ∧
+      allocatedFor s.alloc s.peer = 0 :=
+  ⟨runActs pickMin (init 0 1 (2^30) (2^30))
+      [.env (.alloc 0 1000 900),            -- the old queue's reservation
+       .build { who := .response, req := 0, sub := 0, items := [.block 1 2000 true] }, .run true, .ack true,
+       .env (.release 0 1000),              -- the old queue's message is sent …
+       .env (.releasePeer 0)],              -- … and the old queue exits
+    ⟨_, rfl⟩, by decide, by decide, by decide⟩
 
 /-- non-vacuity of `exactly_once_partial`: a reachable state with a builder queued (600000 bytes),
     a message in flight (1000 bytes + 503 extension bytes) and a caller waiting for memory -/
-example : ∃ s, Reachable pickMin 0 1 (2^30) 700000 s ∧ s.pc ≠ .exited ∧ heldBuilders s = 600000 ∧
+example : ∃ s, SoloReachable pickMin 0 1 (2^30) 700000 s ∧ s.pc ≠ .exited ∧ heldBuilders s = 600000 ∧
     heldInFlight s = 1503 ∧ s.waiters.length = 1 ∧ allocatedFor s.alloc s.peer = 601503 :=
   ⟨runActs pickMin (init 0 1 (2^30) 700000)
       [.build { who := .response, req := 0, sub := 0, items := [.block 1 1000 true, .ext 503] },
        .run true, .ack true,
        .build { who := .response, req := 1, sub := 1, items := [.block 2 600000 true] },
        .build { who := .response, req := 0, sub := 0, items := [.block 3 300000 true] }],
-    ⟨_, rfl⟩, by decide, by decide, by decide, by decide, by decide⟩
+    ⟨_, by decide, rfl⟩, by decide, by decide, by decide, by decide, by decide⟩
 
 end GS.C15
